@@ -237,7 +237,7 @@ Theorem commit_keyed_accepted f w now key final :
   declared_ok (w_opts w) (sri_of hash (w_algo w) (w_data w)) = Some final ->
   size_ok (w_opts w) (lenN (w_data w)) = true ->
   wf_rec hash (smeta_of key (commit_opts (w_opts w) final (lenN (w_data w))) now) ->
-  parse_sri (sri_text final) = Some final ->
+  parse_entry_sri (sri_text final) = Some final ->
   fst (run (commit hash w now) f) = Ok final /\
   CacheInv (snd (run (commit hash w now) f)) /\
   (forall k, abs_idx hash (snd (run (commit hash w now) f)) k
@@ -294,7 +294,7 @@ Proof.
   intros Hw Hinv Hk Hns Hs Hwf.
   assert (declared_ok (w_opts w) (sri_of hash (w_algo w) (w_data w)) = Some (sri_of hash (w_algo w) (w_data w))) as Hd
     by (unfold declared_ok; rewrite Hns; reflexivity).
-  destruct (commit_keyed_accepted f w now key _ Hw Hinv Hk Hd Hs Hwf (parse_sri_computed hash _ _))
+  destruct (commit_keyed_accepted f w now key _ Hw Hinv Hk Hd Hs Hwf (parse_entry_computed hash _ _ HL))
     as [Hres [Hinv' [Habs [Hcp [Htmp Hfr]]]]].
   set (f' := snd (run (commit hash w now) f)) in *.
   split; [exact Hres|]. split; [exact Hinv'|].
@@ -414,7 +414,7 @@ Proof.
   assert (declared_ok (w_opts w2) (sri_of hash (w_algo w2) (w_data w2)) = Some (sri_of hash a data)) as Hd
     by (unfold declared_ok; rewrite Ho2, Hns, Ha2, Hd2; reflexivity).
   destruct (commit_keyed_accepted f2 w2 now key _ Hw2 Hi2 Hk2 Hd) as [_ [_ [Habs _]]];
-    try (rewrite ?Ho2, ?Hd2, ?Ha2; try assumption; apply parse_sri_computed).
+    try (rewrite ?Ho2, ?Hd2, ?Ha2; try assumption; apply parse_entry_computed; exact HL).
   rewrite Habs. assert (bytes_eqb k key = false) as -> by (apply bytes_eqb_neq; exact Hne).
   rewrite (abs_idx_frame f1 f2).
   - apply abs_idx_frame. intros l Hl. apply Hfr1. intro. eapply index_not_tmp; eauto.
